@@ -16,6 +16,7 @@ func scenarios(tier string) []engine.Scenario {
 	var scs []engine.Scenario
 	scs = append(scs, extProdScenarios(tier)...)
 	scs = append(scs, rgswAlgScenarios(tier)...)
+	scs = append(scs, brScenarios(tier)...)
 	return scs
 }
 
